@@ -30,3 +30,7 @@ impl error::Error {
 pub open spec fn list_code(l: ast::AndOrList, sh: Shell, suppress: bool) -> ExecutionExitCode {
     match exec_spec(l, sh, suppress) { Ok((_, code)) => code, Err((_, code)) => code }
 }
+// the diagnostic written when the list failed: the handle and the write are stubs (the write may fail; its result is discarded today)
+#[verifier::external_body] pub struct StderrHandle { _p: u8 }
+impl ExecutionParameters { #[verifier::external_body] pub fn stderr(&self, shell: &Shell) -> StderrHandle { unimplemented!() } }
+impl Shell { #[verifier::external_body] pub fn display_error(&self, w: &mut StderrHandle, e: &error::Error) -> (r: Result<(), error::Error>) { unimplemented!() } }
